@@ -335,8 +335,48 @@ def run_passthrough(case):
     return probs, float(res.gamma)
 
 
+def run_after_fast(fam_args, second_mode, on_copy):
+    """Sequence on one object: compute_gamma(fast=True) on a continuum large enough for a finite window to be chosen,
+    then compute_gamma in another mode on the same object (or on a copy).  The second computation must be the
+    requested kind: observed disorder = the library's own alignment of a FRESH continuum in that mode, and every
+    chance alignment = that mode's alignment of its own continuum."""
+    from ..load import load
+    from ..universe import fam_staircase
+    from ..spec import continuum_to_spec
+    pa = load()
+    spec = fam_staircase(*fam_args)
+    d = A.DISSIMS.get(RECIPE)
+    c = build_continuum(spec)
+    probs = []
+    with serial_pool():
+        np.random.seed(2)
+        c.compute_gamma(d, n_samples=1, fast=True)
+        if c.best_window_size == np.inf:
+            return ["HARNESS-SKIP window stayed infinite"], None
+        target = c.copy() if on_copy else c
+        np.random.seed(3)
+        res = target.compute_gamma(d, n_samples=2, **MODES[second_mode])
+    fresh = build_continuum(spec)
+    want = A.run_alignment(fresh, d, "soft" if second_mode == "soft" else "best")
+    if not close(float(res.observed_disorder), float(want.disorder)):
+        probs.append(f"{second_mode} gamma after a fast one on the same continuum{' (copy)' if on_copy else ''}: observed "
+                     f"disorder {float(res.observed_disorder)} but a fresh continuum gives {float(want.disorder)}")
+    for al in res.chance_alignments:
+        cc = build_continuum(continuum_to_spec(al.continuum))
+        w2 = A.run_alignment(cc, d, "soft" if second_mode == "soft" else "best")
+        if not close(float(al.disorder), float(w2.disorder)):
+            probs.append(f"{second_mode} gamma after a fast one: a chance alignment has disorder {float(al.disorder)} but "
+                         f"the {second_mode} alignment of its continuum gives {float(w2.disorder)}")
+            break
+    return probs, float(res.gamma)
+
+
 def shards(tier, seed):
     tasks = []
+    for fam in ((5, 8), (4, 12)):
+        for mode in ("exact", "soft"):
+            for on_copy in (False, True):
+                tasks.append({"after_fast": {"fam": list(fam), "mode": mode, "copy": on_copy}})
     for cfg in configs(tier):
         if cfg["n"] == 3 and cfg["prec"] is not None:
             for r in range(len(MENU)):
@@ -351,6 +391,22 @@ def shards(tier, seed):
 
 def run(task):
     res = e1.new_result()
+    if "after_fast" in task:
+        af = task["after_fast"]
+        probs, g = run_after_fast(tuple(af["fam"]), af["mode"], af["copy"])
+        res["evaluations"] += 1
+        res["traces"] += 1
+        res["transitions"] += 6
+        key = h(["after_fast", af])
+        res["state_set"].append(key)
+        if probs and probs[0].startswith("HARNESS-SKIP"):
+            res["unspecified"] += 1
+        elif probs:
+            res["violations"].append({"msg": probs[0], "case": {"after_fast": af}})
+        else:
+            res["nontrivial"].append(key)
+            res["outcomes"].append(round(g, 6))
+        return res
     if "cfg" in task:
         explore_cfg(task["cfg"], res, root=task["root"])
         if res["horizon_hits"]:
@@ -372,6 +428,10 @@ def run(task):
 
 
 def replay(case):
+    if "after_fast" in case:
+        af = case["after_fast"]
+        probs, _ = run_after_fast(tuple(af["fam"]), af["mode"], af["copy"])
+        return [{"msg": p, "case": case} for p in probs[:1] if not p.startswith("HARNESS-SKIP")]
     if "passthrough" in case:
         probs, _ = run_passthrough(case["passthrough"])
         return [{"msg": p, "case": case} for p in probs[:1]]
